@@ -162,7 +162,9 @@ def _worker(arg):
 def main(tier: str) -> int:
     run = common.Run(PROP, tier)
     n_cases = 12 if tier == 'quick' else 200
-    seeds = [0, 1, 2, 3] if tier == 'quick' else list(range(48))
+    # two near-duplicate names tie under a wrong sort key; whether the tie shows depends on the
+    # hash seed alone (1 in 2 per seed), so even the quick tier takes eight of them
+    seeds = list(range(8)) if tier == 'quick' else list(range(48))
     cases = gen_cases(run.rng('cases'), n_cases)
     path = os.path.join(run.scratch(), 'cases.json')
     with open(path, 'w', encoding='utf-8') as fh:
